@@ -161,6 +161,8 @@ fn spec_for(c: &Case, await_mode: AwaitMode) -> ExchangeSpec {
             None => ServerPre::Refuse,
         },
         resp: c.resp.clone(),
+        // framing header on the request, or added with Flow::header() before / after send_body_despite_method()
+        prep: (c.body.len() % 3) as u8,
     }
 }
 
@@ -193,8 +195,18 @@ fn run_prefix(c: &Case, p: usize, steps: &[usize], s: &mut Sched, st: &mut Stats
     let what = |m: String| format!("look-prefix {} of {} (steps {:?}): {}", p, hlen, steps, m);
 
     let mut f = Flow::new(probe.request()?).map_err(|e| format!("Flow::new: {:?}", e))?;
+    if probe.prep == 1 {
+        for (k, v) in probe.flow_headers() {
+            f.header(k.as_str(), v.as_str()).map_err(|e| format!("Flow::header: {:?}", e))?;
+        }
+    }
     if c.despite {
         f.send_body_despite_method();
+    }
+    if probe.prep == 2 {
+        for (k, v) in probe.flow_headers() {
+            f.header(k.as_str(), v.as_str()).map_err(|e| format!("Flow::header: {:?}", e))?;
+        }
     }
     let mut sr = f.proceed();
     let mut out = vec![0u8; 4096];
